@@ -30,10 +30,21 @@ pub(crate) fn choose_fresh_global_variables(program: &asp::Program) -> Vec<Strin
         }
     }
     let mut globals = Vec::<String>::new();
+    // used only when the incremented index does not fit: the smallest unused indices instead
+    let mut next_free: usize = 0;
     for i in 1..max_arity + 1 {
-        let mut v: String = "V".to_owned();
-        let counter: &str = &(max_taken_var + i).to_string();
-        v.push_str(counter);
+        let v = match max_taken_var.checked_add(i) {
+            Some(counter) => format!("V{counter}"),
+            None => loop {
+                next_free += 1;
+                let candidate = format!("V{next_free}");
+                if !program.variables().iter().any(|var| var.0 == candidate)
+                    && !globals.contains(&candidate)
+                {
+                    break candidate;
+                }
+            },
+        };
         globals.push(v);
     }
     globals
